@@ -23,6 +23,9 @@ type Store struct {
 	Pick func(what string, n int) int
 	// Touched records which variables the current attempt read or wrote (for reporting).
 	Touched map[string]bool
+	// RefusePct: a view's PreCommit refuses the section (ErrCriticalSectionAborted) with this probability, as a
+	// deployed resource may (a connection that died after the write): the section must then leave no trace.
+	RefusePct int
 }
 
 func NewStore() *Store {
@@ -249,7 +252,14 @@ func (v *view) WriteValue(_ distsys.ArchetypeInterface, val tla.Value) error {
 	return nil
 }
 
-func (v *view) PreCommit(distsys.ArchetypeInterface) chan error { return nil }
+func (v *view) PreCommit(distsys.ArchetypeInterface) chan error {
+	if v.s.RefusePct > 0 && !v.s.Closing() && v.s.Pick != nil && v.s.Pick("precommit-refused", 100) < v.s.RefusePct {
+		ch := make(chan error, 1)
+		ch <- distsys.ErrCriticalSectionAborted
+		return ch
+	}
+	return nil
+}
 func (v *view) Commit(distsys.ArchetypeInterface) chan struct{} { return nil }
 func (v *view) Abort(distsys.ArchetypeInterface) chan struct{}  { return nil }
 func (v *view) Close() error                                    { return nil }
